@@ -29,7 +29,7 @@ def stored_files(tier, seed, prop):
     names = samples_by_size('in')
     if tier == 'quick':
         if prop == 'C16':
-            pick = [n for n, sz in names if sz <= 12500] + ['in/Skinned_SE', 'in/Animated_LE', 'in/Skinned_OB']
+            pick = [n for n, sz in names if sz <= 12500] + ['in/Skinned_SE', 'in/Animated_LE', 'in/Skinned_OB', 'in/Skinned_Dynamic_SE']
         else:
             pick = ['in/SF', 'in/Static_FO4_139', 'in/Static_SE', 'in/Skinned_FO4', 'in/Furniture_Col_SE', 'in/Animated_LE',
                     'in/Skinned_SE', 'in/Skinned_OB', 'in/Skinned_Dynamic_SE']
@@ -39,6 +39,34 @@ def stored_files(tier, seed, prop):
                 seen.add(p)
                 out.append({'sample': p})
         return out
+    return stored_files_thorough(seed, prop)
+
+
+def extra_stored_files(tier, seed, prop):
+    """Synthesised, API-built and edited models as stored files (quick: a seeded handful; thorough: many)."""
+    from . import synth, hist, edits
+    rng = Rng(seed, prop, 'extra-files')
+    out = []
+    types = [t for t in synth.block_types() if t not in synth.BUILDER_ONLY]
+    nsynth = 16 if tier == 'quick' else 900
+    for _ in range(nsynth):
+        out.append(synth.synth_init(rng.choice(synth.VERSIONS), rng.choice(types), rng.below(1 << 20), k=2))
+    nbuild = 5 if tier == 'quick' else 150
+    for _ in range(nbuild):
+        ver = rng.choice(['OB', 'FO3', 'SK', 'SSE', 'FO4', 'FO76'])
+        s = hist.shape_spec(rng, ver, 'quick', name='s0')
+        if s['nv'] > 60:
+            s['nv'], s['nt'] = rng.range(4, 40), rng.range(2, 40)
+        out.append({'builder': {'version': ver, 'salt': rng.below(1 << 30), 'nodes': rng.below(3), 'shapes': [s]}})
+    small = [n for n, sz in sample_names('in') if sz < 30000]
+    nedit = 3 if tier == 'quick' else 120
+    for _ in range(nedit):
+        out.append({'sample': rng.choice(small), 'edits': [edits.edit_step(rng, 'quick') for _ in range(rng.range(1, 4))]})
+    return out
+
+
+def stored_files_thorough(seed, prop):
+    names = samples_by_size('in')
     out = [{'sample': n} for n, _ in names]
     # expected/ holds the golden outputs (sorted, optimised, converted): different bytes for the converted ones
     for n, _ in samples_by_size('exp'):
